@@ -101,4 +101,6 @@ ASSUMPTIONS = ["Reeds-Shepp candidate lengths range over 8-bit ranks: the famili
 TRUSTED = ["extraction rewrite table of units/C14.py", "stubs in units/C14/*.c", "CBMC 6.11 + minisat"]
 NOT_COVERED = ["every trigonometric clause: the six word solvers, the classification tables for long paths (dubinsClassification), mod2pi, curve integration in interpolate, 'ends exactly at the target pose' for 0 < t < 1 ... t -> 1, arc length = reported distance, distance >= straight line, Reeds-Shepp <= Dubins, prefix optimality",
                "Reeds-Shepp word formulas and interpolation"]
-NATIVE = [dict(name="c14_native_table_vs_exhaustive", driver="native/c14_native.cpp", link_ompl=True, unit_cpps=[], args=lambda tier, seed: ["grid", "96" if tier == "quick" else "400"], timeout=300)]
+NATIVE = [dict(name="kf_rs_prefix_witness", driver="native/c14_native_curves.cpp", link_ompl=True, unit_cpps=[], args=["kf_rs_prefix"], known_id="rs-prefix-suboptimal"),
+          dict(name="c14_native_curves", driver="native/c14_native_curves.cpp", link_ompl=True, unit_cpps=[], args=lambda tier, seed: ["grid", "16" if tier == "quick" else "48"], timeout=600),
+          dict(name="c14_native_table_vs_exhaustive", driver="native/c14_native.cpp", link_ompl=True, unit_cpps=[], args=lambda tier, seed: ["grid", "96" if tier == "quick" else "400"], timeout=300)]
